@@ -18,6 +18,7 @@ pub fn sub_call_or_assignment_p() -> impl Parser<StringView, Output = Statement,
 {
     OrParser::new(vec![
         Box::new(let_assignment_p()),
+        Box::new(call_statement_p()),
         Box::new(plain_sub_call_or_assignment_p()),
     ])
 }
@@ -36,6 +37,20 @@ fn let_assignment_p() -> impl Parser<StringView, Output = Statement, Error = Par
         .and_keep_left(equal_sign_ws().or_expected("="))
         .and_tuple(expression_pos_p().or_expected("variable=expression"))
         .map(|(name_expr, right_side_expr)| Statement::assignment(name_expr, right_side_expr))
+}
+
+/// `CALL Name` and `CALL Name(arguments)` call the SUB `Name`
+/// (`CALL ABSOLUTE` is left to the built-in of that name).
+fn call_statement_p() -> impl Parser<StringView, Output = Statement, Error = ParserError> {
+    word_ws("CALL")
+        .and_keep_right(
+            property::parser()
+                .map(|p| p.element)
+                .filter(|name_expr| !property::is_qualified(name_expr) && can_be_sub_name(name_expr)),
+        )
+        .map(expr_to_bare_name_args)
+        .filter(|(bare_name, _)| !bare_name.to_string().eq_ignore_ascii_case("ABSOLUTE"))
+        .map(|(bare_name, opt_args)| Statement::sub_call(bare_name, opt_args.unwrap_or_default()))
 }
 
 fn plain_sub_call_or_assignment_p()
